@@ -107,7 +107,9 @@ def load_dataframes(filenames, include_prefix_dfs=False):
     dataframes = create_empty_dataframes()
     for key, filename in dict_filenames.items():
         try:
-            loaded_dataframe = pd.read_csv(filename, sep="\t", dtype=str, na_filter=False)
+            # The files are written with QUOTE_NONE, so a double quote is an ordinary character when reading.
+            loaded_dataframe = pd.read_csv(filename, sep="\t", dtype=str, na_filter=False,
+                                           quoting=csv.QUOTE_NONE)
             if key in dataframes:
                 columns_not_in_loaded = dataframes[key].columns[~dataframes[key].columns.isin(loaded_dataframe.columns)]
                 # and not dataframes[key].columns.isin(loaded_dataframe.columns).all():
